@@ -1,0 +1,31 @@
+//go:build verif
+// +build verif
+
+package verifapi
+
+import (
+	"gopkg.in/src-d/hercules.v10/internal/core"
+)
+
+// VerifAction is core.VerifAction.
+type VerifAction = core.VerifAction
+
+// Planner entry points.
+var (
+	PrepareRunPlan      = core.VerifPrepareRunPlan
+	GeneratePlan        = core.VerifGeneratePlan
+	CollectGarbage      = core.VerifCollectGarbage
+	InsertHibernateBoot = core.VerifInsertHibernateBoot
+)
+
+// Action codes.
+const (
+	ActionCommit    = core.VerifActionCommit
+	ActionFork      = core.VerifActionFork
+	ActionMerge     = core.VerifActionMerge
+	ActionEmerge    = core.VerifActionEmerge
+	ActionDelete    = core.VerifActionDelete
+	ActionHibernate = core.VerifActionHibernate
+	ActionBoot      = core.VerifActionBoot
+	RootBranchIndex = core.VerifRootBranchIndex
+)
